@@ -923,14 +923,23 @@ def strip(sc):
     return d
 
 
+def merge_variant(rng, sc):
+    """one signed scenario in four pays its own change address and asks for merge_change: the change is folded into that output
+    (same required keys; the body that is signed must be the body that is shipped)"""
+    if sc.get('sign') and sc.get('change') and rng.random() < 0.25:
+        sc['outputs'] = list(sc.get('outputs') or []) + [[sc['change'], rng.choice([2, 3, 5]) * ADA]]
+        sc['merge'] = True
+    return sc
+
+
 def correspond(ctx, n_sign=None, n_slice=None, n_build=None):
     n_sign = n_sign or ctx.n(120, 4000)
     n_slice = n_slice or ctx.n(90, 6000)
     n_build = n_build or ctx.n(64, 3000)
     U, alias = universe(ctx.rng)
     cases = corpus(U)
-    cases += [A.lookalike_ids(ctx.rng, gen_scenario(ctx.rng, U, alias, i, True, complete=i % 3 == 0)) for i in range(n_sign)]
-    cases += [A.lookalike_ids(ctx.rng, gen_build_scenario(ctx.rng, U, alias, i)) for i in range(n_build)]
+    cases += [merge_variant(ctx.rng, A.lookalike_ids(ctx.rng, gen_scenario(ctx.rng, U, alias, i, True, complete=i % 3 == 0))) for i in range(n_sign)]
+    cases += [merge_variant(ctx.rng, A.lookalike_ids(ctx.rng, gen_build_scenario(ctx.rng, U, alias, i))) for i in range(n_build)]
     cases += [A.lookalike_ids(ctx.rng, gen_scenario(ctx.rng, U, alias, i, False)) for i in range(n_slice)]
     results, posts, mism, ofail, errs = run(ctx, cases)
     if errs:
